@@ -1,6 +1,7 @@
 package main
 
 import (
+	"crypto/tls"
 	"errors"
 	"fmt"
 	"io"
@@ -41,6 +42,22 @@ func (l *evlog) write(b []byte) {
 	l.wbuf = append(l.wbuf, b...)
 	l.mu.Unlock()
 }
+
+// lastReplyCode returns the first three octets of the last line written so far.
+func (l *evlog) lastReplyCode() string {
+	l.mu.Lock()
+	defer l.mu.Unlock()
+	b := l.wbuf
+	b = []byte(strings.TrimRight(string(b), "\r\n"))
+	if i := strings.LastIndex(string(b), "\n"); i >= 0 {
+		b = b[i+1:]
+	}
+	if len(b) < 3 {
+		return ""
+	}
+	return string(b[:3])
+}
+
 func (l *evlog) String() string {
 	l.mu.Lock()
 	defer l.mu.Unlock()
@@ -539,11 +556,52 @@ func probeConv(f []string) string {
 
 	panicsRaised.Store(0)
 	in := strings.SplitN(f[3], ";", 2)
-	conn := &sconn{log: log, end: in[1]}
+	conn := newDuplex(log)
+	var tlsSegs [][]byte
+	hasTLS := false
 	if in[0] != "" && in[0] != "-" {
 		for _, s := range strings.Split(in[0], ",") {
-			conn.segs = append(conn.segs, unhx(s))
+			if s == "TLS" {
+				hasTLS = true
+				continue
+			}
+			if hasTLS {
+				tlsSegs = append(tlsSegs, unhx(s))
+			} else {
+				conn.in = append(conn.in, unhx(s))
+			}
 		}
+	}
+	peerDone := make(chan struct{})
+	var netc net.Conn = conn
+	switch {
+	case cfg["tls"] == "implicit":
+		scfg, _ := tlsConfigs()
+		srv.TLSConfig = scfg
+		tlsSegs = conn.in
+		conn.in = nil
+		netc = tls.Server(conn, scfg)
+		go runTLSPeer(conn, tlsSegs, in[1], peerDone)
+	case hasTLS:
+		scfg, _ := tlsConfigs()
+		srv.TLSConfig = scfg
+		// once the server has consumed the plaintext and waits for more, the peer starts TLS
+		conn.onIdle = func() {
+			if log.lastReplyCode() == "220" {
+				go runTLSPeer(conn, tlsSegs, in[1], peerDone)
+			} else {
+				// the server is not waiting for a TLS handshake: the peer just goes away
+				conn.end("eof")
+				close(peerDone)
+			}
+		}
+	default:
+		if cfg["tls"] == "avail" {
+			scfg, _ := tlsConfigs()
+			srv.TLSConfig = scfg
+		}
+		conn.inEnd = in[1]
+		close(peerDone)
 	}
 	smtp.VerifPoint = func(name string) {
 		if name == "bdat-spawned" {
@@ -564,7 +622,7 @@ func probeConv(f []string) string {
 				log.add("ESCAPED-PANIC:" + hx([]byte(fmt.Sprint(p))))
 			}
 		}()
-		srv.VHandleConn(conn)
+		srv.VHandleConn(netc)
 	}()
 	hang := false
 	select {
@@ -584,7 +642,22 @@ func probeConv(f []string) string {
 	for i := 0; i < 3000 && int64(strings.Count(log.String(), "PANIC")) < panicsRaised.Load(); i++ {
 		time.Sleep(time.Millisecond)
 	}
+	conn.mu.Lock()
+	if conn.onIdle != nil {
+		conn.onIdle = nil
+		close(peerDone)
+	}
+	conn.mu.Unlock()
+	peerHang := false
+	select {
+	case <-peerDone:
+	case <-time.After(5 * time.Second):
+		peerHang = true
+	}
 	evs := log.String()
+	if peerHang {
+		evs += ";HANG-PEER"
+	}
 	if hang {
 		evs += ";HANG"
 	}
